@@ -46,13 +46,17 @@ RULE = ("every matrix length 0..70 x variable-list length 0..4 x 4 constructor v
         "3..10 calls of the four make_*interaction* entry points on ONE DefaultQmc with 1..5 variables, variables drawn from "
         "0..nvars+2 (about a third of the calls name a variable the sampler does not have), 1/8 repeated variables, matrices "
         "with entries k/4 of class any/symmetric/breaking/constant/constant-diagonal, offset variants shifted by k/4 (also below "
-        "zero), 1/10 a negative entry, 1/14 a wrong size; once a bond is stored, time steps (12, three betas, heat-bath on/off) "
-        "and clones (continue on the clone or not) are interleaved; after EVERY event the private fields (#bonds, offset, "
-        "has_cluster_edges, breaks_ising_symmetry, non_const_diags, bond_weights present) are read through the serde snapshot "
-        "and compared with the model; oracle (real code only, harness's own rule on the matrices it passed): Err <=> size "
-        "mismatch or negative weight after the shift or repeated variable or variable >= nvars; a rejected call leaves all "
-        "fields unchanged; accepted calls give exactly the expected fields; a clone has identical fields; no panic when "
-        "sampling. Non-trivial = a sequence with at least one accepted and one rejected call (or a planned one). "
+        "zero), 1/10 a negative entry, 1/14 a wrong size; option setters set_do_heatbath / set_do_loop_updates are interleaved "
+        "anywhere (also before the first interaction: options first, model afterwards; a term added between two heat-bath "
+        "runs; on/off/on), and once a bond is stored, time steps (12, three betas, options as they are) and clones (continue "
+        "on the clone or not); every sequence ends with time steps on what was accepted; after EVERY event the private fields "
+        "(#bonds, offset, has_cluster_edges, breaks_ising_symmetry, non_const_diags, bond_weights = none or the per-bond "
+        "maxima, do_heatbath, do_loop_updates) are read through the serde snapshot and compared with the model; oracle (real "
+        "code only, harness's own rule on the matrices it passed): Err <=> size mismatch or negative weight after the shift or "
+        "repeated variable or variable >= nvars; a rejected call leaves all fields unchanged; accepted calls give exactly the "
+        "expected fields; the heat-bath table is absent or the table of the CURRENT interactions (per-bond maxima and running "
+        "sums recomputed by the harness) and present after heat-bath steps; a clone has identical fields; no panic in any "
+        "call or when sampling. Non-trivial = a sequence with at least one accepted and one rejected call (or a planned one). "
         "Mode afterconv (F32; model-free oracle, the model side answers the constant ok): QmcIsingGraph (chain / ring of 2..5 "
         "spins, J = +-k/4, Gamma, h = 0 in 3/7 of the cases) stepped 0..40 times (heat-bath 1/3), into_qmc, 1..nvars+3 further "
         "VALID interactions of all four kinds, 40 time steps with loops on/off and heat-bath on/off; oracle: no panic, every "
